@@ -26,6 +26,7 @@ import (
 	"sort"
 	"strconv"
 	"strings"
+	"syscall"
 
 	"github.com/cilium/ebpf"
 )
@@ -275,6 +276,11 @@ type Skb struct {
 	Hwtstamp       uint64
 }
 
+// ErrFrameRefused: BPF_PROG_TEST_RUN answered EINVAL for this frame. Kernel 6.18 refuses, for skb
+// programs, frames shorter than 14 bytes and frames whose ethertype is IPv4 / IPv6 but which do not hold
+// a complete IP header (< 34 / < 54 bytes). Use the native runner for those.
+var ErrFrameRefused = errors.New("kernel test-run refuses this frame (EINVAL)")
+
 // RunTC executes a TC (SchedCLS) program on frame (>= 14 bytes). in may be nil; only Mark and
 // Priority are taken from it (the other fields are set by the kernel from the frame). The returned
 // Skb carries the program's skb->priority / mark writes.
@@ -295,6 +301,9 @@ func (o *Object) RunTC(prog string, frame []byte, in *Skb) (verdict uint32, out 
 		opts = &ebpf.RunOptions{Data: frame, DataOut: buf}
 		ret, err = p.Run(opts)
 		if err != nil {
+			if errors.Is(err, syscall.EINVAL) {
+				return 0, nil, ctx, ErrFrameRefused
+			}
 			return 0, nil, ctx, err
 		}
 	}
